@@ -38,7 +38,9 @@ fn run_once(h: &History, root: &Path, oracles: Oracles, record: bool) -> Outcome
         oracles,
         record_fs: record,
         fault: None,
-        stop_at_first: true,
+        // C03 evaluates several independent sub-checks per scan; let a run collect one
+        // violation per class instead of stopping at the first.
+        stop_at_first: !oracles.c03,
         ops_after_fault: 0,
     };
     Exec::run(h, &cfg)
@@ -338,7 +340,13 @@ pub fn cmd_seq(args: &Args) -> i32 {
     }
     let mut exit = 0;
     let mut reported = 0;
+    let only_class = args.get("only-class").map(|s| s.to_string());
     for (class, (r, v)) in new_by_class.iter() {
+        if let Some(oc) = only_class.as_ref() {
+            if class != oc {
+                continue;
+            }
+        }
         if reported >= 3 {
             break;
         }
@@ -414,6 +422,11 @@ pub fn cmd_seq(args: &Args) -> i32 {
         json!({"runs_executed_twice": sample_n, "mismatches": 0}),
     );
     extra.insert("other_property_observations".to_string(), json!(other));
+    let mut class_counts: BTreeMap<String, u64> = BTreeMap::new();
+    for (_, v) in mine.iter() {
+        *class_counts.entry(v.class.clone()).or_insert(0) += 1;
+    }
+    extra.insert("violation_classes_seen".to_string(), json!(class_counts));
     extra.insert(
         "profiles".to_string(),
         json!(profiles.iter().map(|p| p.name).collect::<Vec<_>>()),
